@@ -299,6 +299,12 @@ let run_nandinfer toks =
     (match r with Some c -> hex_of_z c | None -> "none")
   | _ -> failwith "nandinfer args"
 
+(* ---- C19 / C20: backward LZSS decoder -------------------------------------- *)
+let run_lzss toks =
+  match toks with
+  | [d] -> (match Lzss.decompress (bytes_of_hex d) with Ok out -> "ok:" ^ (let h = hex_of_bytes out in String.sub h 2 (String.length h - 2)) | Err e -> "e:" ^ err_name e)
+  | _ -> failwith "lzss args"
+
 let dispatch (line : string) : string =
   match String.split_on_char ' ' (String.trim line) with
   | "engine" :: toks -> run_engine toks
@@ -316,6 +322,7 @@ let dispatch (line : string) : string =
   | "ivfcw" :: toks -> run_ivfcw toks
   | "close" :: toks -> run_close toks
   | "nandhdr" :: toks -> run_nandhdr toks
+  | "lzss" :: toks -> run_lzss toks
   | "nandinfer" :: toks -> run_nandinfer toks
   | e :: _ -> failwith ("unknown entry " ^ e)
   | [] -> ""
